@@ -707,16 +707,18 @@ def gen_client(ctx):
             # every message where it belongs, one message per CRYPTO frame / packet
             cases.append(client_qcase(psk, [_op([x], e) for x, e in zip(w, right)]))
             # the same word, fragmented / reordered / duplicated at random, messages of one epoch in one run
-            cases.append(client_qcase(psk, _runs(w, right, rng)))
+            if len(w) >= 2:
+                cases.append(client_qcase(psk, _runs(w, right, rng)))
             # the whole word in Initial packets (wrong for everything after the ServerHello)
-            cases.append(client_qcase(psk, _runs(w, ["initial"] * len(w), rng if rng.random() < 0.5 else None)))
+            if w:
+                cases.append(client_qcase(psk, _runs(w, ["initial"] * len(w), rng if rng.random() < 0.5 else None)))
             # the whole word in 1-RTT packets (the victim has no 1-RTT receive key yet)
             if len(w) <= 3:
                 cases.append(client_qcase(psk, _runs(w, ["1rtt"] * len(w))))
             # one message in a wrong packet type
             for i in range(len(w)):
                 for wrong in ("initial", "1rtt"):
-                    if len(w) > 4 and rng.random() < 0.6:
+                    if not ctx.thorough and len(w) > 3 and rng.random() < 0.75:
                         continue
                     eps = list(right)
                     eps[i] = wrong
@@ -748,7 +750,7 @@ def gen_client(ctx):
     # systematic fragmentation of the legal flight
     for psk in (0, 1):
         f = full[psk]
-        for n in (1, 2, 3, 7, 31, 64):
+        for n in ((1, 2, 3, 7, 31, 64) if ctx.thorough else (1, 3, 31)):
             for order in (0, 1, 2):
                 for dup in (0, 1):
                     for ov in (0, 5):
@@ -757,7 +759,7 @@ def gen_client(ctx):
                                 continue
                             cases.append(client_qcase(psk, [dict(_op(f, "handshake"), n=n, order=order, dup=dup, ov=ov, pack=pack)]))
     # random longer mixtures
-    for _ in range(ctx.n(150, 3000)):
+    for _ in range(ctx.n(100, 3000)):
         psk = rng.choice([0, 1])
         w = [rng.choice(T.FLIGHT + ["NST"]) for _ in range(rng.randint(1, 7))] if rng.random() < 0.3 else \
             list(full[psk]) + [rng.choice(["NST", "NST", "FIN", "EE"]) for _ in range(rng.randint(0, 2))]
@@ -777,7 +779,7 @@ def gen_server(ctx):
             if psk and req:
                 continue
             seen = set()
-            for n in range(0, 5):
+            for n in range(0, 5 if ctx.thorough else 4):
                 for w in itertools.product(range(len(alpha)), repeat=n):
                     # cut after the first message the RFC order (or a failing check) refuses, plus one
                     st = T.S_CERT if req else T.S_FIN
@@ -797,14 +799,17 @@ def gen_server(ctx):
                     names = [x[0] for x in word]
                     vs = [x[1] for x in word]
                     cases.append(server_qcase(psk, req, _runs(names, ["handshake"] * len(w), None, vs)))
-                    cases.append(server_qcase(psk, req, _runs(names, ["handshake"] * len(w), rng, vs)))
-                    cases.append(server_qcase(psk, req, _runs(names, ["initial"] * len(w), rng if rng.random() < 0.5 else None, vs)))
+                    if w:
+                        cases.append(server_qcase(psk, req, _runs(names, ["handshake"] * len(w), rng, vs)))
+                        cases.append(server_qcase(psk, req, _runs(names, ["initial"] * len(w), rng if rng.random() < 0.5 else None, vs)))
                     if len(w) <= 2:
                         cases.append(server_qcase(psk, req, _runs(names, ["1rtt"] * len(w), None, vs)))
                         if psk:
                             cases.append(server_qcase(psk, req, _runs(names, ["0rtt"] * len(w), None, vs)))
                     for i in range(len(w)):
                         for wrong in ("initial", "1rtt"):
+                            if not ctx.thorough and (wrong == "1rtt" and len(w) > 2 or rng.random() < 0.5):
+                                continue
                             eps = ["handshake"] * len(w)
                             eps[i] = wrong
                             cases.append(server_qcase(psk, req, _runs(names, eps, None, vs)))
